@@ -188,6 +188,9 @@ func Exec(t *testing.T, p *Prop, tape *simrt.Tape, tier string, keepTrace bool) 
 			res.Deadlock = s.Deadlock
 			res.StepLimit = s.StepLimit
 			res.Stuck = s.DeadReport
+			if s.LeakedTasks > 0 {
+				res.Probes["leaked-tasks-after-return"] += s.LeakedTasks
+			}
 			if keepTrace {
 				res.Trace = s.Trace
 			}
